@@ -1,9 +1,12 @@
 package props
 
 import (
+	"bufio"
 	"bytes"
 	"fmt"
+	"io"
 	"testing"
+	"testing/iotest"
 
 	"gorgonia.org/tensor"
 	"pgregory.net/rapid"
@@ -16,6 +19,9 @@ type C14Case struct {
 	DT     string `json:"dt"`
 	A      Opnd   `json:"a"`
 	Then   string `json:"then,omitempty"` // the decoded tensor is written and read once more in this format
+	Reader string `json:"reader,omitempty"` // npy/csv: how the stream delivers (""|half|onebyte|bufio16|dataerr)
+	// UsedRecv: the receiver was decoded into before (a masked tensor with as many elements)
+	UsedRecv bool `json:"usedRecv,omitempty"`
 }
 
 func init() { register("C14.roundtrip", func() Case { return &C14Case{} }) }
@@ -25,7 +31,7 @@ func (c *C14Case) NTKey() string {
 	if c.A.L.IsContig() && !c.A.L.IsCM() && c.A.Mask == nil && len(c.A.Shape) == 2 && d.IsFloat() {
 		return ""
 	}
-	return fmt.Sprintf("%s|%s|%v|%v|%v|%s", c.Format, c.DT, c.A.Shape, c.A.L, c.A.Mask != nil, c.Then)
+	return fmt.Sprintf("%s|%s|%v|%v|%v|%s|%s|%v", c.Format, c.DT, c.A.Shape, c.A.L, c.A.Mask != nil, c.Then, c.Reader, c.UsedRecv)
 }
 
 // formatAccepts: the element types each format documents.
@@ -68,14 +74,33 @@ func c14Encode(format string, t *tensor.Dense) (enc []byte, err error) {
 }
 
 func c14Decode(format string, enc []byte, d DT) (dec *tensor.Dense, err error) {
-	dec = new(tensor.Dense)
+	return c14DecodeInto(new(tensor.Dense), format, enc, d, "")
+}
+
+// c14Reader: the stream-based decoders must cope with readers that deliver less than asked for.
+func c14Reader(enc []byte, kind string) io.Reader {
+	switch kind {
+	case "half":
+		return iotest.HalfReader(bytes.NewReader(enc))
+	case "onebyte":
+		return iotest.OneByteReader(bytes.NewReader(enc))
+	case "bufio16":
+		return bufio.NewReaderSize(iotest.HalfReader(bytes.NewReader(enc)), 16)
+	case "dataerr":
+		return iotest.DataErrReader(bytes.NewReader(enc))
+	}
+	return bytes.NewReader(enc)
+}
+
+func c14DecodeInto(dec *tensor.Dense, format string, enc []byte, d DT, reader string) (*tensor.Dense, error) {
+	var err error
 	switch format {
 	case "gob":
 		err = dec.GobDecode(enc)
 	case "npy":
-		err = dec.ReadNpy(bytes.NewReader(enc))
+		err = dec.ReadNpy(c14Reader(enc, reader))
 	case "csv":
-		err = dec.ReadCSV(bytes.NewReader(enc), tensor.As(d.T))
+		err = dec.ReadCSV(c14Reader(enc, reader), tensor.As(d.T))
 	case "pb":
 		err = dec.PBDecode(enc)
 	case "fb":
@@ -83,7 +108,7 @@ func c14Decode(format string, enc []byte, d DT) (dec *tensor.Dense, err error) {
 	default:
 		panic("HARNESS: unknown format " + format)
 	}
-	return
+	return dec, err
 }
 
 // c14Content compares a decoded tensor with the logical array it must hold, up to the
@@ -178,21 +203,25 @@ func (c *C14Case) Run() string {
 		}
 	}
 	dec := new(tensor.Dense)
-	var derr error
-	pan = try(func() {
-		switch c.Format {
-		case "gob":
-			derr = dec.GobDecode(enc)
-		case "npy":
-			derr = dec.ReadNpy(bytes.NewReader(enc))
-		case "csv":
-			derr = dec.ReadCSV(bytes.NewReader(enc), tensor.As(d.T))
-		case "pb":
-			derr = dec.PBDecode(enc)
-		case "fb":
-			derr = dec.FBDecode(enc)
+	if c.UsedRecv && len(A.arr.Shape) > 0 && formatAccepts(c.Format, d) && d.Name != "unsafe.Pointer" {
+		// the receiver has been decoded into before: a masked tensor with as many elements, of another shape
+		prev := seqArr(d, []int{prod(A.arr.Shape)}, 7)
+		pm := make([]bool, len(prev.E))
+		for i := range pm {
+			pm[i] = i%2 == 0
 		}
-	})
+		if pb, err := Build(prev, Layout{Root: "rm"}, pm); err == nil {
+			if penc, err := c14Encode(c.Format, pb.T); err == nil {
+				if _, err := c14DecodeInto(dec, c.Format, penc, d, ""); err == nil {
+					rec.Class("receiver:used")
+				} else {
+					dec = new(tensor.Dense)
+				}
+			}
+		}
+	}
+	var derr error
+	pan = try(func() { _, derr = c14DecodeInto(dec, c.Format, enc, d, c.Reader) })
 	if pan != "" {
 		return desc + ": was encoded but decoding panicked: " + pan
 	}
@@ -332,7 +361,14 @@ func genC14(rt *rapid.T, format string, d DT, lk string, masked bool) *C14Case {
 	c.A = genOpnd(rt, shape, lk, lo, hi, sp, "a")
 	if d.Name == "string" {
 		c.A.Codes = genCodes(rt, prod(shape), 0, 9, 50, "sv")
+		for i := range c.A.Codes {
+			if rapid.IntRange(0, 4).Draw(rt, "xs") == 0 {
+				c.A.Codes[i] = 3000 + int64(rapid.IntRange(0, len(extraStrings)-1).Draw(rt, "xsi"))
+			}
+		}
 	}
+	c.Reader = rapid.SampledFrom([]string{"", "", "half", "onebyte", "bufio16", "dataerr"}).Draw(rt, "reader")
+	c.UsedRecv = rapid.IntRange(0, 3).Draw(rt, "usedrecv") == 0
 	if !masked && rapid.IntRange(0, 2).Draw(rt, "chain") == 0 {
 		c.Then = rapid.SampledFrom([]string{"gob", "npy", "csv", "pb", "fb"}).Draw(rt, "then")
 	}
